@@ -30,7 +30,16 @@ type c14Script struct {
 }
 
 func genC14Script(r *h.Rng, timeout time.Duration, timeoutsOn bool) c14Script {
-	fam := r.Weighted([]int{4, 2, 2, 3, 2})
+	fam := r.Weighted([]int{4, 2, 2, 3, 2, 1})
+	if fam == 5 {
+		// one script evaluated for several binding sets (a `code` condition after an
+		// `or`): every evaluation sees exactly its own bindings and a fresh scope
+		return c14Script{Family: "isolation", Code: r.Pick([]string{
+			"typeof seen === 'undefined' ? (seen = 1, true) : false",
+			"typeof w === 'undefined' || typeof z === 'undefined'",
+			"var n; n = (n || 0) + 1; n == 1",
+		})}
+	}
 	if !timeoutsOn && fam == 3 {
 		fam = 0 // without a limit a non-terminating script legitimately never returns
 	}
@@ -100,6 +109,9 @@ func genC14(r *h.Rng, tier string, idx int) *h.Plan {
 	for i := 0; i < n; i++ {
 		s := genC14Script(r, T, on)
 		place := r.Pick([]string{"run", "cond", "action"})
+		if s.Family == "isolation" {
+			place = "cond"
+		}
 		p.Ops = append(p.Ops, h.Op{K: "js", S: place, J: map[string]interface{}{
 			"family": s.Family, "code": s.Code, "want": s.Want, "var": s.Var, "varval": s.VarVal, "min_ns": s.MinNs, "step_ns": s.StepNs}})
 	}
@@ -187,6 +199,12 @@ func execC14(t *testing.T, plan *h.Plan, trace bool) *h.Result {
 			case "cond":
 				// the script as a `code` condition term; a kept binding = non-null/true value
 				q := map[string]interface{}{"code": code}
+				if fam == "isolation" {
+					q = map[string]interface{}{"and": []interface{}{
+						map[string]interface{}{"or": []interface{}{
+							map[string]interface{}{"code": "({w: 'a'})"}, map[string]interface{}{"code": "({w: 'bb'})"}, map[string]interface{}{"code": "({z: 'c'})"}}},
+						q}}
+				}
 				if vname != "" {
 					q = map[string]interface{}{"and": []interface{}{map[string]interface{}{"code": fmt.Sprintf("({%s: %s})", vname, h.Canon(sj["varval"]))}, q}}
 				}
@@ -238,6 +256,12 @@ func execC14(t *testing.T, plan *h.Plan, trace bool) *h.Result {
 			}
 			isFail := err != nil || failedNode
 			switch fam {
+			case "isolation":
+				if isFail {
+					fail("finishing-script-failed", op.S+":"+fam, "script %q (%s) finishes within the limit but reported %v", code, op.S, err)
+				} else if val != 3 {
+					fail("script-scope-leaks", "cond:isolation", "condition script %q evaluated for the binding sets {w:a}, {w:bb}, {z:c} kept %v of them; evaluated each in its own scope with exactly its own bindings it keeps all 3", code, val)
+				}
 			case "value", "slow":
 				if isFail {
 					fail("finishing-script-failed", op.S+":"+fam, "script %q (%s, timeout mode %s %v) finishes within the limit but reported %v", code, op.S, mode, T, err)
